@@ -93,6 +93,36 @@ def protocol_members():
     return set(attrs)
 
 
+# special methods a raw group / file class may define without exposing names or taking paths
+HARMLESS_SPECIALS = {"__bool__", "__class_getitem__", "__getnewargs__", "__post_init__", "__init_subclass__", "__subclasshook__", "__reduce__", "__reduce_ex__", "__getstate__", "__sizeof__", "__format__"}
+
+
+def forwarded_specials():
+    """Special methods defined by a raw group/file class but not by the wrapper class itself: wrapt forwards those to the raw
+    object, past __getattr__ and every guard. The entry points of the wrapper are what the RAW classes offer, not what the
+    wrapper happens to define (defect #27: reversed())."""
+    import h5py
+    from metador_core.container.wrappers import MetadorContainer, MetadorGroup
+    from metador_core.ih5.overlay import IH5Group
+    from metador_core.ih5.record import IH5Record
+
+    def own(cls):
+        out = set()
+        for c in cls.__mro__:
+            if c.__module__.startswith("metador_core"):
+                out |= set(c.__dict__)
+        return out
+
+    bad = []
+    for wrap, raws in ((MetadorGroup, (h5py.Group, IH5Group)), (MetadorContainer, (h5py.File, IH5Record))):
+        for raw in raws:
+            sp = {n for n in dir(raw) if n.startswith("__") and n.endswith("__") and callable(getattr(raw, n, None))} - set(dir(object))
+            left = sorted(sp - own(wrap) - HARMLESS_SPECIALS)
+            if left:
+                bad.append(f"{wrap.__name__} over {raw.__name__}: {left}")
+    return bad
+
+
 def uncovered_protocol_members():
     return sorted(protocol_members() - set(PATH_METHODS) - NO_PATH_MEMBERS)
 
@@ -584,6 +614,9 @@ def run(tier: str, seed: int) -> dict:
     t0 = time.time()
     unc = uncovered_protocol_members()
     rec.check(not unc, "c08:protocol:uncovered-member", f"protocol members without a call variant in the driver's table: {unc}", case={"part": "proto"}, fns=["util/types.py:H5GroupLike"])
+    fw = forwarded_specials()
+    rec.case(("forwarded-specials",), nontrivial=True)
+    rec.check(not fw, "c08:protocol:special-method-forwarded-to-the-raw-group", f"special methods of the raw group / file classes that the wrapper leaves to wrapt's forwarding (they bypass __getattr__ and the guards): {fw}", case={"part": "forwarded"}, fns=["container/wrappers.py:MetadorGroup"])
     stats = {"calls": 0, "effect_checks": 0, "outcomes": {}, "hung": set(), "localised": set(), "effects": {}}
     reached = {}
     status_notes = {}
@@ -705,6 +738,9 @@ def _fns_a(asp, h, origin):
 
 
 def replay(case: dict):
+    if case.get("part") == "forwarded":
+        fw = forwarded_specials()
+        return (True, f"c08:protocol:special-method-forwarded-to-the-raw-group :: {fw}") if fw else (False, "every special method of the raw group / file classes is defined by the wrapper itself (or harmless)")
     if case.get("part") == "proto":
         unc = uncovered_protocol_members()
         return bool(unc), f"uncovered protocol members: {unc}"
